@@ -2,7 +2,8 @@
    sources.  Statements only; proofs in Proofs/RenderAlgebra.v over kernels,
    composite-profile wiring and scene assembly REGENERATED from rendering.py. *)
 From Coq Require Import Reals List String Bool.
-From PS Require Import Base.RBase Gen.Formulas Gen.RenderGlue Gen.Amps Proofs.RenderAlgebra.
+From Coquelicot Require Import Coquelicot.
+From PS Require Import Base.RBase Base.Dft Base.Dft2 Gen.Formulas Gen.RenderGlue Gen.Amps Proofs.RenderAlgebra Proofs.ConvSymmetry.
 Import ListNotations.
 Open Scope R_scope.
 
@@ -86,6 +87,16 @@ Theorem C08_glue_flags :
   render_for_model_accumulates_all_sources = true /\ render_for_model_key_is_source_key = true.
 Proof. exact glue_flags. Qed.
 
+(* image level: the PSF convolution step (circular convolution = what irfft2(rfft2 . * PSF_fft) computes, C03) is bilinear,
+   so additivity over components / sources and linearity in flux pass through it, for every frame size and all arrays *)
+Theorem C08_convolution_additive : forall N a1 a2 b r c,
+  circ_conv2 N (fun y x => Cplus (a1 y x) (a2 y x)) b r c = Cplus (circ_conv2 N a1 b r c) (circ_conv2 N a2 b r c).
+Proof. exact circ_conv2_plus_l. Qed.
+
+Theorem C08_convolution_linear : forall N k a b r c,
+  circ_conv2 N (fun y x => Cmult k (a y x)) b r c = Cmult k (circ_conv2 N a b r c).
+Proof. exact circ_conv2_scal_l. Qed.
+
 Print Assumptions C08_sersic2d_flux_linear.
 Print Assumptions C08_gauss_fourier_linear.
 Print Assumptions C08_gauss_pixel_linear.
@@ -99,3 +110,5 @@ Print Assumptions C08_exp_dev_are_sersic.
 Print Assumptions C08_scene_additive.
 Print Assumptions C08_composite_additive.
 Print Assumptions C08_glue_flags.
+Print Assumptions C08_convolution_additive.
+Print Assumptions C08_convolution_linear.
